@@ -13,7 +13,7 @@ import (
 	"verifharness/internal/val"
 )
 
-var c20Floor = []string{"set", "get", "get.unset", "get.after-set-same-row", "get.before-set-same-row", "set.overwrite", "set.expr", "set.literal", "where", "prepopulated", "queries.2", "queries.3+", "keys.multi", "table.empty", "dual", "prebuilt", "order.projected", "order.unprojected", "grouped", "grouped.having", "get.subquery", "opt.callback", "keys.numeric", "union.derived-right", "union.cte-right", "union.nested-right", "union.plain", "reexec.register-where", "multidim.register-where", "literal.whitespace", "set.case-arm", "distinct"}
+var c20Floor = []string{"set", "get", "get.unset", "get.after-set-same-row", "get.before-set-same-row", "set.overwrite", "set.expr", "set.literal", "where", "prepopulated", "queries.2", "queries.3+", "keys.multi", "table.empty", "dual", "prebuilt", "order.projected", "order.unprojected", "grouped", "grouped.having", "get.subquery", "opt.callback", "keys.numeric", "union.derived-right", "union.cte-right", "union.nested-right", "union.plain", "reexec.register-where", "multidim.register-where", "literal.whitespace", "set.case-arm", "distinct", "union.cte-chain3"}
 
 func init() {
 	fw.Register(&fw.Prop{
@@ -569,6 +569,7 @@ func c20Union(c *fw.Case) {
 		{"union.derived-right", "SELECT d.rid, d.c, d.seen FROM (SELECT rid, " + item + " FROM u1) d"},
 		{"union.cte-right", "SELECT rid, c, seen FROM w"},
 		{"union.nested-right", "(SELECT rid, " + item + " FROM u1 UNION ALL SELECT rid, " + item + " FROM u1)"},
+		{"union.cte-chain3", ""},
 	}
 	sh := shapes[c.Idx%len(shapes)]
 	sql := left + " UNION ALL " + sh.right
@@ -583,11 +584,27 @@ func c20Union(c *fw.Case) {
 	if sh.feat == "union.nested-right" {
 		order = append(order, u.Rows...)
 	}
+	if sh.feat == "union.cte-chain3" {
+		// a CTE that every branch of a chain reads: its body - and the registers it writes - run once
+		branch := "SELECT rid, c, seen FROM w"
+		sql = "WITH w AS (SELECT rid, " + item + " FROM u1) " + branch + " UNION ALL " + branch + " UNION ALL " + branch
+		if c.Chance(0.4) {
+			sql += " UNION ALL " + branch
+		}
+		order = append([]map[string]any{}, u.Rows...)
+	}
 	var want []any
 	var last any
 	for i, r := range order {
 		want = append(want, map[string]any{"rid": r["rid"], "c": float64(i + 1), "seen": last})
 		last = r["rid"]
+	}
+	if sh.feat == "union.cte-chain3" {
+		once := want
+		want = nil
+		for i := 0; i < strings.Count(sql, "FROM w"); i++ {
+			want = append(want, once...)
+		}
 	}
 	vars := map[string]any{"c": 0.0}
 	doc := DocOf(t, u)
